@@ -16,10 +16,11 @@ RULE = ("histories with up to 5 live handles starting from a random BQM (float64
         "variables, vartypes, bounds, record.tobytes(), labels, info), snapshots interned; expected results come from the same call on a "
         "detached clone; the store model in Coq decides what every handle must show; each snapshot also calls energies() on the object "
         "and compares with its own coefficients (per-instance cached forwarding methods); non-trivial = at least 2 handles and 3 dumps")
-TRUSTED = ["model: coq/theories/Model/{Store,ChkC19}.v",
+TRUSTED = ["model: coq/theories/Model/{Store,Heap,ChkC19}.v",
            "snapshot functions of harness/w_c19.py observe every piece of state an edit can reach (public accessors + record bytes)",
            "pickle/deepcopy clones are used to compute expected states; each clone is itself compared with its source before use"]
 ASSUMPTIONS = ["equal snapshots <=> equal observable state (interning)",
                "the calls replayed on a detached clone are deterministic"]
-PARTIAL = ["all C19 theorems are statements about the store model (frame, copy independence for every edit sequence, views track parents); "
-           "that the real heap behaves like the store is exactly what the correspondence check establishes"]
+PARTIAL = ["the C19 theorems are statements about the models: Model/Store.v (alias classes, views) and Model/Heap.v (every copy-producing call "
+           "of the property text as a constructor whose result is proved to be the documented function of the receiver, receiver cell untouched, "
+           "frame over arbitrary histories); that the real heap behaves like these stores is exactly what the correspondence check establishes"]
